@@ -1,7 +1,7 @@
 ENGINES = [
     {"name": "crashmc", "path": "mc/crashmc.py", "serves_properties": ["C07"],
      "kind_free_text": "crash-point enumeration over the syscall log (strace) of the real writer: all byte prefixes of the write sequence, recovery and restart executed on the real library"},
-    {"name": "gridmc", "path": "mc/checks", "serves_properties": ["C02", "C12", "C18"],
+    {"name": "gridmc", "path": "mc/checks", "serves_properties": ["C02", "C12", "C18", "C20"],
      "kind_free_text": "exhaustive enumeration of finite option lattices / member lists crossed with small branch-covering data alphabets, each point compared with an oracle independent of REBOUND"},
     {"name": "histmc", "path": "mc/histmc.py", "serves_properties": ["C05", "C06", "C08", "C09", "C13", "C14", "C15", "C17"],
      "kind_free_text": "explicit-state breadth-first exploration of operation histories on the real library object (state = history, canonical digest de-duplication, reference-model oracle on every transition)"},
@@ -10,6 +10,14 @@ NOTES = ("All checks explore the real implementation rebuilt from /repo's workin
          "so traces_validated_against_impl equals the number of executed transitions. known_findings.json lists repaired defects (fixed:) and recorded ones.")
 NOT_APPLICABLE = {}
 CHECKS = {
+    "C20": {
+        "engine": "gridmc", "category": "exploration",
+        "technique": "exhaustive enumeration of finite spaces: all unit triples and conversion chains, rotation constructors on a direction/angle lattice incl. degenerate pairs, frame shifts x variational orders, simulation arithmetic; oracles independent of REBOUND (IAU/CODATA table, Rodrigues formula, finite differences)",
+        "text": "All 7x15x17=1785 unit triples (names from the package, values from an independent IAU/CODATA/JPL table): G vs G_SI*M*T^2/L^3, read-back, a 1 au/1 msun orbit has the same period in SI seconds; aliases bitwise equal, kyr/myr/gyr exact multiples; all 8.6k conversion chains A->B->C per dimension: dimensional exponents of m,x,v,a,r, reversible (8 ulp), transitive (16 ulp). "
+                "Rotations: from_to on all 676 ordered pairs of the 26 lattice directions plus scaled (1e-8,1e8), +-1 ulp and generic parallel/antiparallel pairs; angle_axis on 33 axes x 9 angles vs Rodrigues, inverse and composition laws; orbit() on a 9x8x9 angle lattice vs Murray-Dermott and to_orbital round trip; to_new_axes; every result must be a proper rotation (lengths, dot products, orientation). "
+                "Frames: {S3,S4G} x variational order {0,1,2} x {move_to_com, move_to_hel}: relative coordinates, reference point at the origin, variational particles vs Richardson-extrapolated finite differences of shifted perturbed systems. Arithmetic *,/,+,- and in-place forms bitwise equal to the same expression on coordinates; rotate() preserves E, |L|, distances.",
+        "note": "SI consistency judged to 2e-4 relative (precision of published constants / CODATA revisions).",
+    },
     "C02": {
         "engine": "gridmc", "category": "exploration",
         "technique": "exhaustive enumeration of the configuration lattice (N, N_active, testparticle_type, gravity_ignore_terms, softening, G, mass pattern, ghost boxes, root layouts, routine) crossed with a small position alphabet, each point compared with the statement's pairwise sum evaluated in 80-bit arithmetic",
